@@ -11,4 +11,4 @@ Separate Extraction
   Shape.loop_shape Shape.fmt_input Shape.fmt_output_shape Shape.batch_eval Shape.broadcastable_to Shape.atleast_1d
   QcInst.qc_make QcInst.qc_num QcInst.qc_den
   QcRun.q_refine1 QcRun.q_basis1 QcRun.q_dbasis1 QcRun.q_tpredict QcRun.q_tpredict_abs QcRun.q_tgrad
-  QcRun.q_misc_predict QcRun.q_misc_grad.
+  QcRun.q_misc_predict QcRun.q_misc_grad QcRun.q_mk_grid.
